@@ -7,6 +7,19 @@ use crate::util::*;
 pub fn generate(r: &mut Rng, tier: &str, emit: &mut dyn FnMut(String)) {
     let n = if tier == "thorough" { 1500 } else { 150 };
     for i in 0..n {
+        if i % 5 == 3 {
+            // hostname searches without any browse: the refresh marks of address records are
+            // the only reason to wake up
+            let st = r.range(2, 6);
+            let tl = *r.pick(&[5_000u64, 12_000]);
+            let s = gen_scripted_opts(r, "C12", st, tl, 3000, true).replacen("sim C12", "sim2 C12", 1);
+            emit(s);
+            continue;
+        }
+        if i % 5 == 4 {
+            emit(gen_refresh_only(r));
+            continue;
+        }
         if i % 3 == 0 {
             let s = crate::c19::gen_silent(r).replacen("sim C19", "sim C12", 1);
             emit(s);
@@ -35,4 +48,39 @@ pub fn generate(r: &mut Rng, tier: &str, emit: &mut dyn FnMut(String)) {
             emit(s);
         }
     }
+}
+
+/// One search (a hostname search, a browse, or none at all with accept_unsolicited), one answer
+/// with a short TTL, then silence until past the expiry: the refresh queries at 80/85/90/95 %
+/// and the expiry are the only timed work; nothing else wakes the loop (interface check off).
+pub fn gen_refresh_only(r: &mut Rng) -> String {
+    let mut cmds: Vec<String> = vec![format!("daemon {}", ifaces_of(0, false))];
+    cmds.push(format!("ipint 0 {}", r.pick(&[0u64, 100_000])));
+    let mut now = 1_000_000u64;
+    cmds.push(format!("run {}", now));
+    let inst = gen_inst(r, 0);
+    let ttl = *r.pick(&[2u32, 3, 5, 10, 15]);
+    let t = Ttls { ptr: ttl, srv: ttl, txt: ttl, addr: ttl };
+    let recs = recs_of(&inst, &t, r.chance(1, 2));
+    let kind = r.below(4);
+    match kind {
+        0 | 1 => cmds.push(format!("resolve 0 1 {} none", hx(&inst.host))),
+        2 => cmds.push(format!("browse 0 1 {}", hx(&inst.ty))),
+        _ => cmds.push("accept 0 1".to_string()),
+    }
+    now += *r.pick(&[0u64, 10, 400, 1000, 1700]);
+    cmds.push(format!("run {}", now));
+    match kind {
+        0 | 1 => cmds.push(format!("inject 0 2 1 192.168.1.50 5353 {}", response(&recs[3..], &[]))),
+        _ => cmds.push(format!("inject 0 2 1 192.168.1.50 5353 {}", response(&recs[..1], &recs[1..]))),
+    }
+    if kind == 3 {
+        // the search starts after the records were cached
+        now += *r.pick(&[100u64, 900]);
+        cmds.push(format!("run {}", now));
+        cmds.push(format!("resolve 0 1 {} none", hx(&inst.host)));
+    }
+    now += ttl as u64 * 1000 + *r.pick(&[500u64, 1500]);
+    cmds.push(format!("run {}", now));
+    format!("sim2 C12 {}", cmds.join(" ; "))
 }
